@@ -86,7 +86,7 @@ theorem spec_maildirWrite_sp (S : Spool) (T : Prop) (cs : List Bytes) (env : PEn
   split
   · exact early ms w rfl rfl (Inv.refl hroot) (plain w hns)
   rename_i fl _
-  refine wp_bind_mono (spec_genname_plain env md (some fl) 4096 _) ?_
+  refine wp_bind_mono (spec_genname_plain env md (some fl) gennameAttempts _) ?_
   rintro g w2 (⟨rfl, hsf2⟩ | ⟨fd, name, d', p', w3, rfl, hd', hsf3, hdp', hl', hfd', rfl, hname, -⟩)
   · exact early ms w2 rfl rfl (Inv.ofSameFs hsf2 hroot) (plain w2 (hns.congr (hsf2.dir _)))
   dsimp only
